@@ -234,6 +234,22 @@ def r_meta_roundtrip(rep, prog):
             good = ln[0] == "call" and ln[1] == "slice::len" and any(x[0] == "f" and x[3] == "buffer" for x in T.walk(ln))
         rep.check(good, rule, "%s|length" % fn, "length = %s" % (sizefn or "buffer.len()"),
                   "%s rebuilds its buffer with length %s" % (fn, T.show(ln)), fr[0][1]["span"])
+        if sizefn and good:
+            # ... of the frame count the constructor sized and checked the buffer for
+            arg = T.canon(ln[2][0])
+            TFc = prog.crate("llfree").const("llfree::TREE_FRAMES")
+            if fn.endswith("Lower::metadata"):
+                # the lower-level size depends on the frame count at huge-frame granularity: only the stored count is right
+                ok_arg = arg == ("call", "llfree::lower::Lower::frames", (("p", "self"),)) or arg == ("f", ("p", "self"), "frames")
+                want_s = "self.frames()"
+            else:
+                # the tree-array size depends on ceil(frames / TREE_FRAMES) only: len() * TREE_FRAMES is equivalent
+                ok_arg = (arg[0] == "bin" and arg[1] == "Mul" and ("c", TFc) in (arg[2], arg[3]) and any(
+                    x[0] == "call" and x[1] in ("llfree::trees::Trees::len", "slice::len") for x in (arg[2], arg[3])))
+                want_s = "self.len() * TREE_FRAMES"
+            rep.check(ok_arg, rule, "%s|length-arg" % fn, "sized for %s, the count new() checked the buffer against" % want_s,
+                      "%s sizes the returned slice for %s frames instead of %s: the slice is longer than the caller's buffer whenever "
+                      "the two differ (partial last tree)" % (fn, T.show(ln[2][0])[:80], want_s), fr[0][1]["span"])
         ptr = mtm.operand(fr[0][1]["args"][0])
         fields = {"llfree::lower::Lower::metadata": "bitfields", "llfree::trees::Trees::metadata": "entries", "llfree::local::Locals::metadata": "buffer"}
         rep.check(any(x[0] == "f" and x[3] == fields[fn] for x in T.walk(ptr)), rule, "%s|base" % fn, "starts at self.%s" % fields[fn],
